@@ -11,10 +11,13 @@ coding and is recognised again in If-None-Match.
 All theorems quantify over every script of handler calls (`ops : List (Op α)`: WriteHeader / Write / Flush /
 ReadFrom with arbitrary chunking / header edits, in any order and number), every payload type `α`
 (instantiate `α := Bytes`, `size := List.length`), every matcher, every `DetectContentType`, every request.
-Where the unchanged code violates a clause (`minimum_length < 0`, see Witness.lean) the theorem carries the
-explicit decidable exclusion `cfg.minLen > 0` — which is what `Provision` establishes for every configuration
-that does not set a negative `minimum_length`. `No101`: a handler that answers `101 Switching Protocols`
-hijacks the connection; no HTTP body follows, so the clause about bodies does not speak about it.
+No exclusion on the configuration is left: since commit 954786b (`ReadFrom` commits the header before it hands
+the reader to the wrapped writer) every theorem holds for every `minimum_length`, negative ones included;
+Witness.lean keeps the old `ReadFrom` and proves that the same statements FAIL for it (`…_old_code_fails`).
+The one remaining hypothesis of the body/status clauses is `No101`: a handler that answers
+`101 Switching Protocols` hijacks the connection; the writer forwards 101 like any 1xx while net/http treats
+it as the final header and refuses a body — the model's recording writer does not drop that body, so the
+clause about bodies cannot speak about such scripts (`Witness.no101_hypothesis_is_needed`).
 -/
 import CaddyModel.C15.Lemmas
 import CaddyModel.C15.Witness
@@ -29,8 +32,8 @@ def Encoded (st : St α) : Prop := plainOnly st.log = false
 
 /-- every finished response has one of the two legal shapes -/
 theorem final_shape (cfg : Cfg α) (name : Bytes) (ic : Bool) (ops : List (Op α))
-    (hmin : cfg.minLen > 0) (h101 : No101 ops) : Shape cfg name (runWrapped cfg name ic ops) :=
-  shape_rwClose (inv_run hmin ops _ h101 (inv_init cfg name ic))
+    (h101 : No101 ops) : Shape cfg name (runWrapped cfg name ic ops) :=
+  shape_rwClose (inv_run ops _ h101 (inv_init cfg name ic))
 
 /-- **decision once.** As soon as the writer has committed the header (`wroteHeader`, which happens before the
     first body byte is handed on: see `no_body_before_commit`) the choice encode / identity never changes,
@@ -41,20 +44,20 @@ theorem decision_once (cfg : Cfg α) (st : St α) (ops : List (Op α)) (hw : st.
 
 /-- nothing but (1xx) headers reaches the client, and no encoder is open, before the header is committed -/
 theorem no_body_before_commit (cfg : Cfg α) (name : Bytes) (ic : Bool) (ops : List (Op α))
-    (hmin : cfg.minLen > 0) (h101 : No101 ops)
+    (h101 : No101 ops)
     (hw : (run cfg (St.init name ic) ops).wroteHeader = false) :
     headerOnly (run cfg (St.init name ic) ops).log = true ∧ (run cfg (St.init name ic) ops).encOpen = false ∧
       (run cfg (St.init name ic) ops).sent = none :=
-  have h := (inv_run hmin ops _ h101 (inv_init cfg name ic)).pre hw
+  have h := (inv_run ops _ h101 (inv_init cfg name ic)).pre hw
   ⟨h.2.2, h.2.1, h.1⟩
 
 /-- **no mixed streams.** The finished response is either plain bytes only, or encoder output only that is
     terminated by the encoder's `Close`. -/
 theorem no_mixed_stream (cfg : Cfg α) (name : Bytes) (ic : Bool) (ops : List (Op α))
-    (hmin : cfg.minLen > 0) (h101 : No101 ops) :
+    (h101 : No101 ops) :
     plainOnly (runWrapped cfg name ic ops).log = true ∨
       ∃ rest, (runWrapped cfg name ic ops).log = Ev.ec :: rest ∧ encOnly rest = true := by
-  cases final_shape cfg name ic ops hmin h101 with
+  cases final_shape cfg name ic ops h101 with
   | identity h => exact Or.inl h
   | encoded rest _ _ _ hlog henc _ _ _ => exact Or.inr ⟨rest, hlog, henc⟩
 
@@ -66,10 +69,10 @@ theorem nothing_lost_or_duplicated (cfg : Cfg α) (name : Bytes) (ic : Bool) (op
 /-- **transparency** of the response writer: for ALL scripts, a client that decodes according to the
     Content-Encoding it received obtains exactly what the handler wrote. -/
 theorem transparent_wrapped (cfg : Cfg α) (name : Bytes) (ic : Bool) (ops : List (Op α))
-    (hmin : cfg.minLen > 0) (h101 : No101 ops) :
+    (h101 : No101 ops) :
     clientBody (some name) (runWrapped cfg name ic ops) = some (written cfg ops) := by
   have hp := payloads_runWrapped cfg name ic ops
-  cases final_shape cfg name ic ops hmin h101 with
+  cases final_shape cfg name ic ops h101 with
   | identity h => simp [clientBody, h, hp]
   | encoded rest s sc h0 hlog henc hsent _ _ =>
     have hnp : plainOnly (runWrapped cfg name ic ops).log = false := by
@@ -84,12 +87,12 @@ theorem transparent_wrapped (cfg : Cfg α) (name : Bytes) (ic : Bool) (ops : Lis
 
 /-- **transparency**, whole handler: whatever `ServeHTTP` negotiates for whatever request. -/
 theorem transparent (cfg : Cfg α) (offered prefer : List Bytes) (req : Req) (ops : List (Op α))
-    (hmin : cfg.minLen > 0) (h101 : No101 ops) :
+    (h101 : No101 ops) :
     clientBody (serve cfg offered prefer req ops).sel (serve cfg offered prefer req ops).final
       = some (written cfg ops) := by
   unfold serve
   split
-  · exact transparent_wrapped cfg _ _ ops hmin h101
+  · exact transparent_wrapped cfg _ _ ops h101
   · obtain ⟨a, b⟩ := runPlain_spec cfg ops (St.init [] req.isConnect) rfl
     simp only [runPlain, clientBody, a, if_true, b]
     simp [St.init, payloads]
@@ -155,20 +158,20 @@ theorem chosen_is_most_preferred (offered prefer : List Bytes) (req : Req) (c : 
     the header the client received is exactly `init`'s edit of a handler header `h0` that was not already
     encoded, carried no `no-transform`, satisfied the response matcher, and met the minimum length. -/
 theorem encoded_only_if (cfg : Cfg α) (name : Bytes) (ic : Bool) (ops : List (Op α))
-    (hmin : cfg.minLen > 0) (h101 : No101 ops) (henc : Encoded (runWrapped cfg name ic ops)) :
+    (h101 : No101 ops) (henc : Encoded (runWrapped cfg name ic ops)) :
     ∃ s sc h0 rest, (runWrapped cfg name ic ops).sent = some (s, initHdr name h0) ∧
       (runWrapped cfg name ic ops).log = Ev.ec :: rest ∧ InitOk cfg sc h0 ∧ MinLenOk cfg h0 rest := by
-  cases final_shape cfg name ic ops hmin h101 with
+  cases final_shape cfg name ic ops h101 with
   | identity h => simp [Encoded, h] at henc
   | encoded rest s sc h0 hlog _ hsent hok hm => exact ⟨s, sc, h0, rest, hsent, hlog, hok, hm⟩
 
 /-- **headers when encoded.** `Content-Encoding` is exactly the coding, `Vary` lists `Accept-Encoding`, no
     `Content-Length` (and no `Accept-Ranges`) remains — in the header the client received. -/
 theorem headers_when_encoded (cfg : Cfg α) (name : Bytes) (ic : Bool) (ops : List (Op α))
-    (hmin : cfg.minLen > 0) (h101 : No101 ops) (henc : Encoded (runWrapped cfg name ic ops)) :
+    (h101 : No101 ops) (henc : Encoded (runWrapped cfg name ic ops)) :
     ∃ s h, (runWrapped cfg name ic ops).sent = some (s, h) ∧ hValues h kCE = [name] ∧ hasVary h = true ∧
       hValues h kCL = [] ∧ hValues h kAR = [] := by
-  obtain ⟨s, _, h0, _, hsent, _, _, _⟩ := encoded_only_if cfg name ic ops hmin h101 henc
+  obtain ⟨s, _, h0, _, hsent, _, _, _⟩ := encoded_only_if cfg name ic ops h101 henc
   exact ⟨s, _, hsent, initHdr_CE name h0, initHdr_vary name h0, initHdr_CL name h0, initHdr_AR name h0⟩
 
 /-- what `init` does to the other headers: nothing. -/
@@ -214,19 +217,19 @@ theorem informational_forwarded (st : St α) (s : Nat) (h1 : is1xx s = true) :
   refine ⟨by simp, by simp, by simp, fun h => ?_⟩
   simp [is1xx_informational h1 h]
 
-/-- **the status survives** (provable part; the full statement fails for `minimum_length < 0`, see
-    `Witness.status_full_fails`): a handler that edits headers / sends 1xx, announces the final status `s` and
-    then writes its body in any way without calling WriteHeader again gets exactly `s` delivered. -/
-theorem status_preserved_partial (cfg : Cfg α) (name : Bytes) (ic : Bool) (pre body : List (Op α)) (s : Nat)
-    (hmin : cfg.minLen > 0) (hs : is1xx s = false) (hs0 : s ≠ 0)
+/-- **the status survives**, for every configuration: a handler that edits headers / sends 1xx, announces the
+    final status `s` and then writes its body in any way without calling WriteHeader again gets exactly `s`
+    delivered. (Fails for the `ReadFrom` of before 954786b: `Witness.status_old_code_fails`.) -/
+theorem status_preserved (cfg : Cfg α) (name : Bytes) (ic : Bool) (pre body : List (Op α)) (s : Nat)
+    (hs : is1xx s = false) (hs0 : s ≠ 0)
     (hpre : ∀ op ∈ pre, Preliminary op) (hbody : ∀ op ∈ body, ∀ i, op ≠ Op.writeHeader i) :
     ∃ h, (runWrapped cfg name ic (pre ++ Op.writeHeader s :: body)).sent = some (s, h) := by
   have hni : isInformational s = false := by simp [isInformational, hs]
   unfold runWrapped run
   rw [List.foldl_append, List.foldl_cons]
-  have h1 := uncommitted_run cfg pre (St.init name ic) hpre ⟨rfl, rfl⟩
+  have h1 := uncommitted_run cfg pre (St.init name ic) hpre ⟨rfl, rfl, rfl⟩
   have h2 := held_after_final_writeHeader _ s hs h1
-  have h3 := held_run cfg hmin s hs0 hni body _ hbody h2
+  have h3 := held_run cfg s hs0 hni body _ hbody h2
   exact held_rwClose cfg s hs0 hni _ h3
 
 end
@@ -234,10 +237,10 @@ end
 /-- **transparency in bytes**: with byte-string payloads, the concatenation of what the client decodes is the
     concatenation of everything the handler wrote (empty writes included). -/
 theorem transparent_bytes (cfg : Cfg Bytes) (hsz : cfg.size = List.length) (offered prefer : List Bytes)
-    (req : Req) (ops : List (Op Bytes)) (hmin : cfg.minLen > 0) (h101 : No101 ops) :
+    (req : Req) (ops : List (Op Bytes)) (h101 : No101 ops) :
     (clientBody (serve cfg offered prefer req ops).sel (serve cfg offered prefer req ops).final).map List.flatten
       = some (writtenBytes ops) := by
-  rw [transparent cfg offered prefer req ops hmin h101]
+  rw [transparent cfg offered prefer req ops h101]
   simp only [Option.map_some, Option.some.injEq]
   unfold written writtenBytes
   induction ops with
@@ -323,8 +326,8 @@ example : (serve exCfg [vGzip, vZstd] [] exReq exOps).sel = some vZstd ∧
     (serve exCfg [vGzip, vZstd] [] exReq exOps).inm = exTag := by decide
 
 -- hypotheses of `transparent`, `encoded_only_if`, `headers_when_encoded` hold for it
-example : exCfg.minLen > 0 ∧ Encoded (runWrapped exCfg vZstd false exOps) := by
-  refine ⟨by decide, ?_⟩; unfold Encoded; decide
+example : No101 exOps ∧ Encoded (runWrapped exCfg vZstd false exOps) := by
+  refine ⟨exOps_no101, ?_⟩; unfold Encoded; decide
 
 -- the header the client received: Content-Encoding zstd, no Content-Length, the adjusted ETag, status 200
 example : (runWrapped exCfg vZstd false exOps).sent.map (fun x => (x.1, hValues x.2 kCE, hValues x.2 kCL, hValues x.2 kEtag))
@@ -344,7 +347,7 @@ set_option maxRecDepth 8000 in
 example : chooseEncoding [vGzip, vZstd] [vGzip, vZstd] exReq = some vZstd ∧
     acceptedPrefs exAE false [vGzip, vZstd] = [⟨vGzip, 500, 2⟩, ⟨vZstd, 1000, 1⟩] := by decide
 
--- `status_preserved_partial`: its hypotheses are met by exOps' shape (pre = 4 ops, s = 200, body = 4 ops)
+-- `status_preserved`: its hypotheses are met by exOps' shape (pre = 4 ops, s = 200, body = 4 ops)
 example : ∀ op ∈ ([.hset kCT exTextHtml, .writeHeader 103] : List (Op Nat)), Preliminary op := by
   intro op h
   simp at h
